@@ -158,13 +158,18 @@ AVOID2={
  'C32':'moving the keyword-argument rejection below the direct-call early return',
 }
 pid,k=sys.argv[1],sys.argv[2]
+import glob
+_prev=[]
+for _m in sorted(glob.glob(f'/verif/seeded/{sys.argv[1]}-*/meta.json')):
+    try: _prev.append(json.load(open(_m)).get('summary','')[:140].replace('\n',' '))
+    except Exception: pass
 focus=sys.argv[3] if len(sys.argv)>3 else '(any anchored mechanism)'
 persona=sys.argv[4] if len(sys.argv)>4 else 'the kind of slip a maintainer could make in a refactor or feature commit'
 p=props[pid]
 wt=f'/tmp/wt/{pid}-{k}'
 a=p['anchors']
 txt=TEMPLATE.format(pid=pid,k=k,wt=wt,title=p['title'],statement=p['statement'],quant=p['quantifier']['text'],why=p['why_tests_cant'],
-  files=', '.join(a['files']), mech='; '.join(m['name'] for m in a.get('mechanism',[])), avoid=AVOID.get(pid,'(none)')+'; '+AVOID2.get(pid,'')+'; '+AVOID3.get(pid,''), focus=focus, persona=persona)
+  files=', '.join(a['files']), mech='; '.join(m['name'] for m in a.get('mechanism',[])), avoid=AVOID.get(pid,'(none)')+'; '+AVOID2.get(pid,'')+'; '+AVOID3.get(pid,'')+'; and (summaries of earlier seeds) '+' | '.join(_prev), focus=focus, persona=persona)
 if len(sys.argv)>5 and sys.argv[5]=='benign':
     txt=BENIGN.format(pid=pid,k=k,wt=wt,title=p['title'],statement=p['statement'],quant=p['quantifier']['text'],
       files=', '.join(a['files']), mech='; '.join(m['name'] for m in a.get('mechanism',[])))
